@@ -10,11 +10,16 @@
 #include <map>
 #include <string>
 typedef celma::common::FixedString<CV_L> FS;
+#ifndef CV_S
+#define CV_S CV_L
+#endif
+typedef celma::common::FixedString<CV_S> FS2;
 static std::map<std::string, std::string> A;
 static size_t Z(const char* k, size_t d = 0) { return A.count(k) ? strtoull(A[k].c_str(), 0, 10) : d; }
 static std::string H(const char* k) { std::string r, h = A.count(k) ? A[k] : ""; for (size_t i = 0; i + 1 < h.size(); i += 2) r += (char)strtol(h.substr(i, 2).c_str(), 0, 16); return r; }
 static FS* mk(const char* lk, const char* ck) { FS* o = new FS; std::string c = H(ck); size_t n = Z(lk); memset(o->mString, 0, CV_L + 1);
   for (size_t i = 0; i < CV_L && i < c.size(); ++i) o->mString[i] = c[i]; o->mLength = n; if (n <= CV_L) o->mString[n] = 0; return o; }
+static FS2* mk2(const std::string& c) { FS2* o = new FS2; memset(o->mString, 0, CV_S + 1); size_t n = c.size() < CV_S ? c.size() : CV_S; for (size_t i = 0; i < n; ++i) o->mString[i] = c[i]; o->mLength = n; return o; }
 static std::string view(const FS* o) { return std::string(o->mString, o->mLength <= CV_L ? o->mLength : CV_L); }
 static std::string cut(const std::string& s) { return s.substr(0, CV_L); }
 static int bad(const char* w, const std::string& e, const std::string& g) { printf("REPRODUCED: %s: expected \"%s\" (len %zu) got \"%s\" (len %zu)\n", w, e.c_str(), e.size(), g.c_str(), g.size()); return 1; }
@@ -100,6 +105,27 @@ int main(int argc, char** argv) {
   else if (m == "append_it2") { FS* p = mk("other_len", "other_c"); std::string po = view(p);
     FS::const_iterator f = (i1 == std::string::npos) ? p->cend() : FS::const_iterator(p, i1), l = (i2 == std::string::npos) ? p->cend() : FS::const_iterator(p, i2);
     o->append(f, l); if (content) { std::string t = old; t.append(i1 == std::string::npos ? po.end() : po.begin() + i1, i2 == std::string::npos ? po.end() : po.begin() + i2); exp = cut(t); } delete p; }
+  // cross-capacity members: the other operand is a FixedString<CV_S> holding the bytes of str=
+#define XM(id, call, oracle) else if (m == id) { FS2* q = mk2(sv); o->call; if (content) { std::string t = old; oracle; exp = cut(t); } delete q; }
+#define XO(id, call, oracle) else if (m == id) { FS2* q = mk2(sv); r = (long)(o->call); have_r = true; if (content) { std::string t = old; er = (long)(oracle); } delete q; }
+  XM("insert_G", insert(index, *q), t.insert(index, S))
+  XM("insert_Gpc", insert(index, *q, index_str, count), t.insert(index, S, index_str, count))
+  XM("append_G", append(*q), t.append(S))
+  XM("append_Gpc", append(*q, pos, count), t.append(S, pos, count))
+  XM("pluseq_G", operator+=(*q), t += S)
+  XM("replace_pcG", replace(pos, count, *q), t.replace(pos, count, S))
+  XM("replace_pcGpc", replace(pos, count, *q, pos2, count2), t.replace(pos, count, S, pos2, count2))
+  XM("assign_G", assign(*q), t.assign(S))
+  XM("opassign_G", operator=(*q), t = S)
+  XO("compare_G", compare(*q), sgn(t.compare(S)))
+  XO("compare_pcG", compare(pos1, count1, *q), sgn(t.compare(pos1, count1, S)))
+  XO("compare_pcGpc", compare(pos1, count1, *q, pos2, count2), sgn(t.compare(pos1, count1, S, pos2, count2)))
+  XO("starts_with_G", starts_with(*q), t.compare(0, S.size(), S) == 0)
+  XO("ends_with_G", ends_with(*q), t.size() >= S.size() && t.compare(t.size() - S.size(), S.size(), S) == 0)
+  XO("contains_G", contains(*q), t.find(S) != std::string::npos)
+  else if (m == "eq_G" || m == "ne_G") { FS2* q = mk2(sv); bool e = (*o == *q), n = (*o != *q); have_r = true; r = (m == "eq_G") ? e : n; er = (m == "eq_G") ? (old == S) : (old != S);
+    if (content && e == n) { printf("REPRODUCED: operator== and operator!= both %d\n", (int)e); return 1; } delete q; }
+  else if (m == "ctor_G") { FS2* q = mk2(sv); delete o; o = new FS(*q); if (content) exp = cut(S); delete q; }
   OBS("index", operator[](idx), t.c_str()[idx])
   OBS("front", front(), t.c_str()[0])
   OBS("back", back(), t.empty() ? 0 : t.back())
